@@ -334,7 +334,7 @@ class kMinPathErrorCycles(walkmodel.AbstractWalkModelDiGraph):
             if (u, v) in self.edges_to_ignore:
                 continue
 
-            f_u_v = data[self.flow_attr]
+            f_u_v = float(data[self.flow_attr])
             # float(): the solver accepts Python numbers only as coefficients, not numpy integer or float32 scalars
             edge_error_scaling_u_v = float(self.edge_error_scaling.get((u, v), 1))
 
